@@ -12,7 +12,7 @@ import common
 from common import xr, xvec, from_xr, from_xvec, num_close, tokens_close
 
 ID = "C15"
-TARGETS = ["Proofs.C15"]
+TARGETS = ["Proofs.C15", "Proofs.C15Multi", "Proofs.C15Axis"]
 GEN_PREFIXES = []
 THEOREMS = {
     "Proofs.C15": ["VerifModel.C15." + t for t in [
@@ -25,40 +25,63 @@ THEOREMS = {
         "C15_axis", "C15_axis_rank", "C15_axis_shape",
         "C15_window", "C15_window_series", "C15_window_long", "C15_window_same_for_all_fields",
         "C15_window_arr", "C15_fields_partial", "C15_applied_before_cut"]],
+    "Proofs.C15Multi": ["VerifModel.C15." + t for t in [
+        "C15_multi_cell", "C15_multi_field", "C15_multi_wf", "C15_multi_input", "C15_multi_borrowed_obs"]],
+    "Proofs.C15Axis": ["VerifModel.C15." + t for t in [
+        "C15_axis_norm", "C15_axis_every_dimension", "C15_axis_any", "C15_axis_any_cells", "C15_axis_out_of_range"]],
 }
 TRUSTED_BASE = [
     "Lean 4.33 kernel; axioms propext, Classical.choice, Quot.sound only",
     "Spec/Stats.lean: my reading of the documented statistics (textbook definitions on rational samples; "
-    "quantile = linear interpolation at position (n-1)p, NumPy's documented default) and of the trailing window (l-h, l]",
-    "Model/Aggregator.lean, Model/Preagg.lean: hand-written mirror of aggregator.py and data.py:783-828, tied to the real "
-    "code by the correspondence streams of this check (not machine-translated)",
-    "NumPy primitives np.mean/median/min/max/std/var/percentile/sum/abs and fancy indexing: given Lean definitions, "
-    "enter through the correspondence",
+    "quantile = linear interpolation at position (n-1)p, NumPy's documented default) and of the trailing window (l-h, l]; "
+    "Spec/DataCoord.lean: the coordinate-based meaning of a Data request (shared with C01-C03)",
+    "Model/Aggregator.lean (incl. callAxis: how each class treats the axis argument), Model/Preagg.lean, Model/PreaggData.lean "
+    "(-T with several inputs = every loaded field replaced by its pre-aggregate on the input's own grid, then the Data model "
+    "of Model/Data.lean): hand-written mirror of aggregator.py and data.py:442-600, 783-828, tied to the real code by the "
+    "correspondence streams of this check (not machine-translated)",
+    "NumPy primitives np.mean/median/min/max/std/var/percentile/sum/abs, axis normalisation and fancy indexing: given Lean "
+    "definitions, enter through the correspondence",
     "IEEE rounding (double for the aggregators, float32 storage of the pre-aggregated array): compared with "
-    "relative tolerance 1e-9 / 1e-6 where the result is not exact by construction; np.sqrt as the parameter Tr.sqrt",
-    "the Python oracle in harness/props/c15.py (fractions.Fraction statistics written from the definitions), cross-checked "
-    "on every op against Spec.Stats evaluated by the Lean driver",
+    "relative tolerance 1e-9 / 2e-6 where the result is not exact by construction; np.sqrt as the parameter Tr.sqrt",
+    "the Python oracle in harness/props/c15.py (fractions.Fraction statistics written from the definitions; for tdata2 "
+    "windows by coordinate value on the supplying input's own grid + datagen.oracle_dims), cross-checked "
+    "on every agg / preagg op against Spec.Stats evaluated by the Lean driver",
 ]
 ASSUMPTIONS = [
     "data values are finite or NaN (verif treats +-inf as missing before scoring)",
     "window length h > 0 for the check (the driver rejects -T <= 0); C15_window holds for every coordinate order "
     "(text inputs and Data deliver ascending coordinates, NetCDF inputs may not)",
-    "quantile-from-ensemble fields are excluded from C15_fields_partial (known finding tagg-quantile-ignored)",
+    "quantile-from-ensemble fields under -T (repaired by 3ab2f86: the quantile is now taken from the pre-aggregated members) "
+    "are judged by the oracle on every agg.data op; the estimator itself (np.quantile normal_unbiased) belongs to C08 and is not "
+    "in Model/Preagg.dataScore (reply UNMODELLED)",
+    "PIT randomisation (# x0 / # x1 of the variable) before the pre-aggregation is not modelled: the in-memory and NetCDF inputs "
+    "of agg.data2 carry no x0 / x1",
+    "agg.data2: a window containing a missing value has several acceptable readings (NaN, or the statistic of the valid values); "
+    "the oracle makes no claim for such a cell, the model comparison still applies",
 ]
 RULE = ("agg.vec: every vector of length <= 3 over {-1,0,1/8,1,nan} plus seeded vectors of length 0..12 on a 1/8 grid in "
         "[-4,4] with ties and NaNs x all 14 aggregators and quantile levels {0,.1,.25,.5,.75,.9,1}; agg.axis: arrays of rank "
-        "1..4 (extents 0..4), every axis; agg.window: irregular strictly ascending lead-time / time grids (agg.window.unsorted: "
-        "shuffled, reversed, repeated coordinates), h from below the "
+        "1..4 (extents 0..4), every axis; agg.axis.neg: rank 1..4, every axis named from the back (-1 ... -rank) and -rank-1; "
+        "agg.axis.high: rank 5 and 6, axes 0 ... rank, -1, -rank; agg.window: irregular strictly ascending lead-time / time grids "
+        "(agg.window.unsorted: shuffled, reversed, repeated coordinates), h from below the "
         "smallest gap to beyond the whole series, 1-D series and 3-D/4-D arrays, through preaggregate_leadtime / "
-        "preaggregate_time; agg.data: Data(dim_agg_*) on in-memory, text and NetCDF inputs for obs, fcst, members, "
-        "threshold and quantile fields, with lead-time/time subsets; agg.cli: verif -m obs -T h -Tagg f -Tx axis -type csv on a text file; an op is non-trivial if its reply contains a finite number")
+        "preaggregate_time; agg.data: Data(dim_agg_*) on ONE in-memory, text or NetCDF input for obs, fcst, members, "
+        "threshold and quantile fields, with lead-time/time subsets; agg.data2: Data(dim_agg_*) on 1-3 inputs (+ climatology in 12 %) "
+        "whose lead-time, time and location sets differ in values, order and (60 %) size, up to n-1 inputs without observations "
+        "(incl. the first), fields obs, fcst, pit, an other-score field, ensemble members, -l / -t style subsets, in memory and through "
+        "NetCDF files, several requests on one Data object; agg.cli: verif -m obs -T h -Tagg f -Tx axis -type csv on a text file; "
+        "an op is non-trivial if its reply contains a finite number")
 EXHAUSTIVE = {"quick": False, "thorough": False}
 EXHAUSTIVE_NOTE = "vectors of length <= 3 over a 5-letter alphabet are enumerated completely for all 21 aggregator names; the rest is seeded-random"
 LEVEL_TEXT = ("Lean theorems: each of the 15 aggregators, as modelled from aggregator.py, equals its textbook statistic on every "
               "NaN-free rational sample (quantile 0/1/half = min/max/median, iqr = Q3/4 - Q1/4, count ignores NaN, NaN propagates "
-              "through all others); applying an aggregator along any axis of an array of any rank aggregates exactly the fibers; "
+              "through all others); applying an aggregator along any axis of an array of any rank aggregates exactly the fibers, and "
+              "the class call aggregator(array, axis) is that reduction for every aggregator and every axis -rank <= axis < rank; "
               "for every coordinate order and every h the pre-aggregated value at every position is the aggregate of the "
-              "trailing window (l-h, l], for every field that is pre-aggregated. The model is tied to the code by differential "
+              "trailing window (l-h, l], for every field that is pre-aggregated; with several inputs the answer of Data is the "
+              "coordinate-based specification of Data evaluated on inputs whose loaded fields are the window aggregates of each "
+              "input's own series on its own grid (borrowed observations: the lender's), before the common subset is cut. "
+              "The model is tied to the code by differential "
               "correspondence; an independent exact-arithmetic oracle judges the implementation on every op.")
 TECHNIQUE = "Lean 4 proof over a hand-written model; differential correspondence against the real code; exact-arithmetic oracle"
 
@@ -99,6 +122,107 @@ def _coords(rng, n, step):
     return out
 
 
+T2_FIELDS = ["obs", "fcst", "pit", "spread", "ens0", "ens1"]
+
+
+def _gen_tdata2(rng):
+    """op lines `tdata2 <src> <axis> <agg> <h> <cfg> <inputs> <reqs>` (cfg / inputs / reqs: the `data` encoding of
+    harness/datagen.py)"""
+    import datagen
+    axis = rng.choice(["leadtime", "time"])
+    n = rng.choice([1, 2, 2, 2, 3])
+    src = rng.choice(["mem", "mem", "nc"])
+    lpool = [0.0, 1.0, 2.0, 3.0, 4.5, 6.0, 9.0, 12.0]
+    t0 = 946684800
+    tpool = [t0 + 3600 * x for x in (0, 1, 2, 3, 6, 12, 24, 30)]
+    xpool = [(float(i), 60.0 + i, 10.0 + i, 100.0 * i) for i in (1, 2, 3, 100000)]
+    extra = rng.sample(["pit", "spread", "ens0", "ens1"], rng.choice([0, 1, 2, 4]))
+    if "ens1" in extra and "ens0" not in extra:
+        extra.append("ens0")
+    pn = rng.choice([0.0, 0.0, 0.08, 0.25])
+    no_obs = set()
+    if n > 1 and rng.random() < 0.6:
+        no_obs = set(rng.sample(range(n), rng.randint(1, n - 1)))      # at least one input keeps its observations
+        if rng.random() < 0.5:
+            no_obs.add(0)
+            no_obs.discard(rng.choice([k for k in range(1, n)]))         # the FIRST input borrows from a later one
+    inputs = []
+    ref = {}
+    same_shape = rng.random() < 0.4
+    for k in range(n):
+        def pick(pool, must, lo, hi):
+            sel = set(rng.sample(pool, rng.randint(lo, hi)))
+            for m in must:
+                if rng.random() < 0.9:
+                    sel.add(m)
+            sel = sorted(sel)
+            r = rng.random()
+            if r < 0.25:
+                rng.shuffle(sel)
+            elif r < 0.35:
+                sel.reverse()
+            return sel
+        leads = pick(lpool, [lpool[1], lpool[3], lpool[5]], 1, 6)
+        times = pick(tpool, [tpool[0], tpool[2]], 1, 4)
+        locs = pick(xpool, [xpool[0]], 1, 3)
+        if k > 0 and same_shape:
+            # same array shape as the first input, other coordinate values (a window taken on the wrong input's
+            # grid then raises nothing)
+            def resize(sel, pool, m):
+                sel = list(sel[:m])
+                free = [v for v in pool if v not in sel]
+                rng.shuffle(free)
+                return sel + free[:m - len(sel)]
+            leads = resize(leads, lpool, len(inputs[0]["leads"]))
+            times = resize(times, tpool, len(inputs[0]["times"]))
+            locs = resize(locs, xpool, len(inputs[0]["locs"]))
+        if rng.random() < 0.05 and len(leads) > 1:
+            leads[-1] = leads[0]                          # a repeated coordinate
+        shape = (len(times), len(leads), len(locs))
+        fields = {}
+        for name in ["obs", "fcst"] + sorted(extra):
+            if name == "obs" and k in no_obs:
+                continue
+            a = np.array(_vec(rng, int(np.prod(shape)), pn), float).reshape(shape)
+            if name == "pit":
+                a = np.abs(a) / 4.0
+            fields[name] = a
+        if "obs" in fields and rng.random() < 0.7:
+            # observations that exist agree between the inputs (the documented situation); sometimes they do not,
+            # and then it matters WHOSE observations an input without observations gets
+            a = fields["obs"]
+            for it, t in enumerate(times):
+                for il, l in enumerate(leads):
+                    for ix, x in enumerate(locs):
+                        if a[it, il, ix] == a[it, il, ix]:
+                            a[it, il, ix] = ref.setdefault((t, l, x[0]), a[it, il, ix])
+        inputs.append({"times": times, "leads": leads, "locs": locs, "fields": fields})
+    cfg = {}
+    if rng.random() < 0.3:
+        allv = sorted(set(v for I in inputs for v in (I["leads"] if axis == "leadtime" else I["times"])))
+        sub = sorted(rng.sample(allv, rng.randint(1, len(allv))))
+        cfg["leads" if axis == "leadtime" else "times"] = sub
+    if n > 1 and rng.random() < 0.12:
+        cfg["clim"] = True                                  # the last input is the climatology (-c)
+        cfg["div"] = rng.random() < 0.3
+    ds = datagen.DS(inputs, cfg)
+    nscored = n - (1 if cfg.get("clim") else 0)
+    unit = 1
+    span = 12 if axis == "leadtime" else 30
+    h = rng.choice([0.5, 1, 1, 1.5, 2, 3, 3, 4.5, 6, span, span + 7]) * unit
+    names = ["obs", "fcst"] + sorted(extra)
+    reqs = []
+    for name in names:
+        for i in range(nscored):
+            reqs.append(([name], i, "all", None))
+    rng.shuffle(reqs)
+    reqs = reqs[:6]
+    if nscored > 1 and rng.random() < 0.5:
+        reqs.append((["obs", "fcst"], rng.randrange(nscored), "all", None))
+    for agg in rng.sample(ALL, 2):
+        yield "tdata2 %s %s %s %s %s" % (src, axis, agg, xr(h), datagen.enc_op(ds, reqs, head="x")[2:])
+
+
 def gen_ops(tier, rng):
     quick = tier == "quick"
     # --- name lookup
@@ -131,6 +255,24 @@ def gen_ops(tier, rng):
         for k in range(rank):
             for name in names:
                 yield "agg.axis", "aggaxis %s %d %s %s" % (name, k, ",".join(map(str, dims)), xvec(data))
+    # --- "along any array dimension": dimensions named from the back (axis = -1 ... -rank) and arrays of rank 5 / 6,
+    #     every axis, plus one axis outside the array (AxisError expected from everybody)
+    for _ in range(40 if quick else 600):
+        rank = rng.choice([1, 2, 3, 3, 4, 4])
+        dims = [rng.choice([1, 2, 2, 3]) for _ in range(rank)]
+        data = _vec(rng, int(np.prod(dims)), rng.choice([0.0, 0.0, 0.1]))
+        names = rng.sample(BASE[:-2], 2) + rng.sample(LEVELS, 1) + ["change", "abschange"]
+        for k in range(-rank - 1, 0):
+            for name in names:
+                yield "agg.axis.neg", "aggaxis %s %d %s %s" % (name, k, ",".join(map(str, dims)), xvec(data))
+    for _ in range(12 if quick else 150):
+        rank = rng.choice([5, 6])
+        dims = [rng.choice([1, 2, 2]) for _ in range(rank)]
+        data = _vec(rng, int(np.prod(dims)), rng.choice([0.0, 0.0, 0.1]))
+        names = rng.sample(BASE[:-2], 2) + rng.sample(LEVELS, 1) + ["change", "abschange"]
+        for k in list(range(rank + 1)) + [-1, -rank]:
+            for name in names:
+                yield "agg.axis.high", "aggaxis %s %d %s %s" % (name, k, ",".join(map(str, dims)), xvec(data))
     # --- trailing window on one series
     for _ in range(120 if quick else 2500):
         axis = rng.choice(["leadtime", "time"])
@@ -231,6 +373,14 @@ def gen_ops(tier, rng):
         for field in fields:
             yield "agg.data", "tdata %s %s %s %s %s %s %d,%d,%d,%d %s %s %s %s %s" % (
                 src, axis, name, xr(h), xvec(times), xvec(leads), T, L, S, M, xvec(obs), xvec(fcst), xvec(ens), field, sel)
+
+    # --- -T with SEVERAL inputs (tdata2): every input on its own grid (different lead-time / time sets, different
+    #     order, different locations), some inputs without observations (they borrow the first input that has them:
+    #     pre-aggregated on the LENDER's grid), pit, an other-score field and ensemble members as fields, subsets of
+    #     times / lead times, in memory and through NetCDF files (which keep the file's coordinate order)
+    for j in range(60 if quick else 900):
+        for line in _gen_tdata2(rng):
+            yield "agg.data2", line
 
 
 # ------------------------------------------------------------------ implementation side
@@ -347,6 +497,90 @@ def _tdata(a):
     return _show_arr(r)
 
 
+def _t2_decode(a):
+    """-> src, axis, name, h, ds, reqs"""
+    import datagen
+    ds, reqs = datagen.dec_op("data " + " ".join(a[5:8]))
+    return a[1], a[2], a[3], from_xr(a[4]), ds, reqs
+
+
+def _t2_input(src, I, k):
+    """input k of a tdata2 dataset as an object of the real classes (in memory / NetCDF file)"""
+    import datagen
+    f = I["fields"]
+    ens = [n for n in sorted(f) if n.startswith("ens")]
+    if src == "mem":
+        m = datagen.mem_input({"times": I["times"], "leads": I["leads"], "locs": I["locs"],
+                               "fields": {n: a for n, a in f.items() if not n.startswith("ens")}}, "in%d" % k)
+        if ens:
+            m.ensemble = np.stack([np.array(f[n], float) for n in ens], axis=3)
+        return m
+    import netCDF4
+    import verif.input
+    path = os.path.join(_tmpdir(), "t2_%d.nc" % k)
+    if os.path.exists(path):
+        os.remove(path)
+    nc = netCDF4.Dataset(path, "w")
+    T, L, S = len(I["times"]), len(I["leads"]), len(I["locs"])
+    nc.createDimension("time", T)
+    nc.createDimension("leadtime", L)
+    nc.createDimension("location", S)
+    for nm, dm, val in [("time", ("time",), I["times"]), ("leadtime", ("leadtime",), I["leads"]),
+                        ("location", ("location",), [x[0] for x in I["locs"]]), ("lat", ("location",), [x[1] for x in I["locs"]]),
+                        ("lon", ("location",), [x[2] for x in I["locs"]]), ("altitude", ("location",), [x[3] for x in I["locs"]])]:
+        v = nc.createVariable(nm, "f8", dm)
+        v[:] = np.array(list(val), float)
+    for nm, val in f.items():
+        if not nm.startswith("ens"):
+            v = nc.createVariable(nm, "f8", ("time", "leadtime", "location"))
+            v[:] = np.array(val, float).reshape(T, L, S)
+    if ens:
+        nc.createDimension("ensemble_member", len(ens))
+        v = nc.createVariable("ensemble", "f8", ("time", "leadtime", "location", "ensemble_member"))
+        v[:] = np.stack([np.array(f[n], float).reshape(T, L, S) for n in ens], axis=3)
+    nc.close()
+    return verif.input.Netcdf(path)
+
+
+def _t2_field(name):
+    import datagen
+    import verif.field
+    if name.startswith("ens"):
+        return verif.field.Ensemble(int(name[3:]))
+    return datagen.field_obj(name)
+
+
+def _tdata2(a):
+    """-T on several inputs: ONE Data object, the requests one after the other"""
+    import datagen
+    import verif.data
+    import verif.axis
+    src, axis, name, h, ds, reqs = _t2_decode(a)
+    ins = [_t2_input(src, I, k) for k, I in enumerate(ds.inputs)]
+    kw = {}
+    if ds.cfg.get("clim"):
+        kw["clim"] = ins[-1]
+        kw["clim_type"] = "divide" if ds.cfg.get("div") else "subtract"
+        ins = ins[:-1]
+    if ds.cfg.get("times") is not None:
+        kw["times"] = np.array(ds.cfg["times"], float)
+    if ds.cfg.get("leads") is not None:
+        kw["leadtimes"] = np.array(ds.cfg["leads"], float)
+    try:
+        data = verif.data.Data(ins, dim_agg_length=h, dim_agg_method=_get(name),
+                               dim_agg_axis=verif.axis.Leadtime() if axis == "leadtime" else verif.axis.Time(), **kw)
+    except SystemExit:
+        return "ERR init"
+    out = [datagen.head_of(data)]
+    for (f, i, ax, k) in reqs:
+        try:
+            r = data.get_scores([_t2_field(n) for n in f], i, verif.axis.All())
+            out.append(";".join(xvec(np.array(o, float).flatten()) for o in r))
+        except SystemExit:
+            out.append("ERR")
+    return " | ".join(out)
+
+
 def _tcli(a):
     """verif <file> -m obs -T h -Tagg name -Tx axis -x axis -type csv; returns the value column"""
     import contextlib
@@ -412,6 +646,11 @@ def impl(op):
             return r
         if k == "tcli":
             return _tcli(a)
+        if k == "tdata2":
+            import contextlib
+            import io
+            with contextlib.redirect_stdout(io.StringIO()):
+                return _call(lambda: _tdata2(a))
     except SystemExit:
         return "ERR"
     raise ValueError(op)
@@ -554,7 +793,7 @@ def judge(op, impl_out, spec_out):
     k = a[0]
     if common.mutated_verdict(op, impl_out):
         return common.mutated_verdict(op, impl_out)
-    if (impl_out.startswith("EXC:") or impl_out.startswith("EXIT:")) and k != "aggget":
+    if (impl_out.startswith("EXC:") or impl_out.startswith("EXIT:")) and k not in ("aggget", "aggaxis"):
         return ({"kind": "exception", "op": k}, "%s ended in %s" % (op[:200], impl_out))
     if k == "aggget":
         name = a[1]
@@ -584,9 +823,16 @@ def judge(op, impl_out, spec_out):
                     "%s of [%s] is %s, the implementation returns %s" % (a[1], a[2], _fmt(acc), impl_out))
         return None
     if k == "aggaxis":
-        name, ax = a[1], int(a[2])
+        name, ax0 = a[1], int(a[2])
         dims = [int(x) for x in a[3].split(",")]
         data = from_xvec(a[4])
+        rank = len(dims)
+        if not (-rank <= ax0 < rank):
+            # not a dimension of the array: the call must not return anything
+            if impl_out.startswith("EXC"):
+                return None
+            return ({"kind": "axis-range", "agg": name}, "%s along axis %d of shape %s returned %s" % (name, ax0, a[3], impl_out[:80]))
+        ax = ax0 + rank if ax0 < 0 else ax0        # dimensions are named from the front, or from the back when negative
         n = dims[ax]
         odims = dims[:ax] + dims[ax + 1:]
         strides = [int(np.prod(dims[i + 1:])) for i in range(len(dims))]
@@ -601,7 +847,9 @@ def judge(op, impl_out, spec_out):
             # an exception is acceptable only if the statistic is undefined for the fibers (empty axis)
             if n == 0 and "nonnumber" in expected(name, []):
                 return None
-            return ({"kind": "axis", "agg": name}, "%s along axis %d of shape %s raised" % (name, ax, a[3]))
+            return ({"kind": "axis-raise", "axis": "negative" if ax0 < 0 else "ge5" if ax0 >= 5 else "0-4", "agg": name},
+                    "%s along axis %d of an array of shape %s raised %s (dimension %d of %d; the statistic of every fiber is defined)"
+                    % (name, ax0, a[3], impl_out, ax, rank))
         sh, vals = impl_out.split(";")
         want_sh = ",".join(map(str, odims)) if odims else "-"
         toks = [] if vals == "-" else vals.split(",")
@@ -611,7 +859,7 @@ def judge(op, impl_out, spec_out):
             if not _matches(t, acc, 1e-9, 1e-12):
                 return ({"kind": "axis", "agg": name},
                         "%s along axis %d of shape %s: cell %d is %s, the statistic of that fiber is %s" %
-                        (name, ax, a[3], i, t, _fmt(acc)))
+                        (name, ax0, a[3], i, t, _fmt(acc)))
         return None
     if k in ("preagg", "preaggarr"):
         axis, name, h = a[1], a[2], from_xr(a[3])
@@ -655,6 +903,8 @@ def judge(op, impl_out, spec_out):
         return None
     if k == "tdata":
         return _judge_tdata(a, impl_out)
+    if k == "tdata2":
+        return _judge_tdata2(a, impl_out)
     if k == "tcli":
         axis, name, h = a[1], a[2], int(a[3])
         times, leads = from_xvec(a[4]), from_xvec(a[5])
@@ -777,6 +1027,104 @@ def _judge_tdata(a, impl_out):
     return None
 
 
+def _judge_tdata2(a, impl_out):
+    """-T on several inputs, from the documentation, by COORDINATES: the verified dimensions are the values every input
+    has (and the user's subset allows); the value of field F of input i at (t, l, x) is the aggregate of the series
+    that the input SUPPLYING F to i stores (i itself; for observations the first input that has them when i has
+    none) over the trailing window on the supplier's own grid, all of its stored lead times / times taking part
+    whether verified or not; a case is missing for everybody when it is missing for anybody (C01)."""
+    import datagen
+    src, axis, name, h, ds, reqs = _t2_decode(a)
+    sig = {"kind": "window", "via": "Data2", "src": src}
+    dims = datagen.oracle_dims(ds)
+    if impl_out.startswith("E"):
+        if dims is None and impl_out == "ERR init":
+            return None
+        return (sig, "Data with -T on %d inputs ended in %s: %s" % (len(ds.inputs), impl_out, " ".join(a)[:300]))
+    if dims is None:
+        return (dict(sig, kind="data-dims"), "Data was built although the inputs have no common times / lead times / locations")
+    parts = impl_out.split(" | ")
+    want_head = "T=%s;L=%s;X=%s" % (xvec(dims[0]), xvec(dims[1]), xvec(dims[2]))
+    if parts[0] != want_head:
+        return (dict(sig, kind="data-dims"), "verified dimensions %s, documented %s" % (parts[0], want_head))
+    clim = ds.inputs[-1] if ds.cfg.get("clim") else None
+    scored = ds.inputs[:-1] if clim is not None else ds.inputs
+    scale = 1 if axis == "leadtime" else 3600
+    cache = {}
+
+    def supplier(J, nm):
+        if nm == "obs" and "obs" not in J["fields"]:
+            return next(K for K in ds.inputs if "obs" in K["fields"])
+        return J
+
+    def acc_at(J, nm, c):
+        K = supplier(J, nm)
+        key = (id(K), nm, c)
+        if key not in cache:
+            arr = np.array(K["fields"][nm], float)
+            it, il = datagen._first_index(K["times"], c[0]), datagen._first_index(K["leads"], c[1])
+            ix = datagen._first_index([x[0] for x in K["locs"]], c[2])
+            if axis == "leadtime":
+                series = [float(arr[it, j, ix]) for j in _window(K["leads"], h, c[1])]
+            else:
+                series = [float(arr[j, il, ix]) for j in _window(K["times"], h * scale, c[0])]
+            cache[key] = (expected(name, series), series)
+        return cache[key]
+
+    cases = [(t, l, x) for t in dims[0] for l in dims[1] for x in dims[2]]
+    for (f, i, ax, k), reply in zip(reqs, parts[1:]):
+        do_clim = clim is not None and ("obs" in f or "fcst" in f)
+        eff = list(f) + (["fcst"] if do_clim and "fcst" not in f else [])
+        err = False
+        for nm in eff:
+            have = [nm in J["fields"] for J in ds.inputs]
+            if (nm == "obs" and not any(have)) or (nm != "obs" and not all(have)):
+                err = True
+        if err:
+            if reply != "ERR":
+                return (dict(sig, kind="data-field"), "request %s of input %d: a field is missing in some input, reply %s" % (f, i, reply[:80]))
+            continue
+        if reply == "ERR":
+            return (dict(sig, kind="data-field"), "request %s of input %d stopped with an error although every input has the fields" % (f, i))
+        cols = [([] if c == "-" else c.split(",")) for c in reply.split(";")]
+        if len(cols) != len(f) or any(len(c) != len(cases) for c in cols):
+            return (dict(sig, kind="data-shape"), "request %s: %s values per field, expected %d" % (f, [len(c) for c in cols], len(cases)))
+        for ci, c in enumerate(cases):
+            accs = [acc_at(J, nm, c)[0] for nm in eff for J in ds.inputs]
+            if any(len(acc) != 1 for acc in accs):
+                continue              # a window with a missing value inside: several readings, no claim
+            missing = any(acc[0] == "nonnumber" for acc in accs)
+            for fi, nm in enumerate(f):
+                acc, series = acc_at(scored[i], nm, c)
+                want = acc[0]
+                if not missing and do_clim and nm in ("obs", "fcst"):
+                    cv = acc_at(clim, "fcst", c)[0][0]
+                    with np.errstate(all="ignore"):
+                        want = float(np.float64(want) / np.float64(cv)) if ds.cfg.get("div") else want - cv
+                    if want != want or math.isinf(want):
+                        missing = True
+            for fi, nm in enumerate(f):
+                acc, series = acc_at(scored[i], nm, c)
+                want = acc[0]
+                if missing:
+                    want = "nonnumber"
+                elif do_clim and nm in ("obs", "fcst"):
+                    cv = acc_at(clim, "fcst", c)[0][0]
+                    want = float(np.float64(want) / np.float64(cv)) if ds.cfg.get("div") else want - cv
+                if not _matches(cols[fi][ci], [want], 2e-6, 2e-6):
+                    K = supplier(scored[i], nm)
+                    lender = ds.inputs.index(K)
+                    return (dict(sig, field=nm, borrowed=(lender != i)),
+                            "-T %s -Tagg %s -Tx %s on %d inputs (%s): field %s of input %d at time %s lead %s location %s: the %s over "
+                            "the trailing window of input %d's own series (values [%s] on its %s %s) is %s%s, Data returns %s" %
+                            (a[4], name, axis, len(ds.inputs), src, nm, i, xr(c[0]), xr(c[1]), xr(c[2]), name, lender,
+                             xvec(series), "lead times" if axis == "leadtime" else "times",
+                             xvec(K["leads"] if axis == "leadtime" else K["times"]), _fmt(acc),
+                             " (case missing in another input / after the climatology)" if missing and acc[0] != "nonnumber" else "",
+                             cols[fi][ci]))
+    return None
+
+
 def cmp(op, impl_out, model_out):
     a = op.split(" ")
     if model_out == "UNMODELLED" or a[0] == "tcli":
@@ -785,6 +1133,10 @@ def cmp(op, impl_out, model_out):
         return impl_out.split(":")[0] == model_out
     if a[0] == "aggget":
         return tokens_close(impl_out, model_out)
+    if a[0] == "tdata2":
+        pi, pm = impl_out.split(" | "), model_out.split(" | ")
+        return len(pi) == len(pm) and pi[0] == pm[0] and all(
+            x == y or tokens_close(x.replace(";", ","), y.replace(";", ","), 2e-6, 2e-6) for x, y in zip(pi[1:], pm[1:]))
     name = a[1] if a[0] in ("agg", "aggaxis") else a[2] if a[0] in ("preagg", "preaggarr") else a[3]
     if name in EXACT and a[0] != "tdata":
         return impl_out == model_out
